@@ -100,7 +100,7 @@ def sanitize_crop_inputs(points, wcs):
     return False, points, wcs
 
 
-def get_crop_item_from_points(points, wcs, crop_by_values, keepdims):
+def get_crop_item_from_points(points, wcs, crop_by_values, keepdims, array_shape=None):
     """
     Find slice item that crops to minimum cube in array-space containing specified world points.
 
@@ -123,6 +123,10 @@ def get_crop_item_from_points(points, wcs, crop_by_values, keepdims):
 
     keep_dims : `bool`
         If `False`, returned item will drop length-1 dimensions otherwise, item will keep length-1 dimensions.
+
+    array_shape : `tuple` of `int`, optional
+        The shape of the array to be cropped, used to detect points that lie wholly off the array.
+        Defaults to the array shape of the WCS, if it has one.
 
     Returns
     -------
@@ -192,7 +196,9 @@ def get_crop_item_from_points(points, wcs, crop_by_values, keepdims):
     # Define slice item with which to slice cube.
     item = []
     result_is_scalar = True
-    for axis_indices in combined_points_array_idx:
+    if array_shape is None:
+        array_shape = wcs.array_shape
+    for axis, axis_indices in enumerate(combined_points_array_idx):
         if axis_indices == []:
             result_is_scalar = False
             item.append(slice(None))
@@ -201,6 +207,8 @@ def get_crop_item_from_points(points, wcs, crop_by_values, keepdims):
             # read as positions counted from the end of the axis.
             min_idx = max(min(axis_indices), 0)
             max_idx = max(max(axis_indices) + 1, 0)
+            if max_idx <= min_idx or (array_shape is not None and min_idx >= array_shape[axis]):
+                raise ValueError(f"All input points lie outside the array along array axis {axis}.")
             if max_idx - min_idx == 1 and not keepdims:
                 item.append(min_idx)
             else:
